@@ -1,5 +1,6 @@
 SPECIFICATION Spec
 CONSTANT Files <- Files2
+CONSTANT Priors <- PriorsMC
 INVARIANT DestAtomic
 INVARIANT FailClean
 INVARIANT RerunCompletes
